@@ -5,6 +5,7 @@ PLAN = {
     'C04': ['harness.c04_roundtrip'],
     'C05': ['harness.c04_roundtrip'],
     'C06': ['harness.c06_decoder'],
+    'C07': ['harness.c07_evolution'],
     'C08': ['harness.c08_validators'],
     'C13': ['harness.c13_privacy'],
     'C14': ['harness.c14_client'],
@@ -15,6 +16,7 @@ PLAN = {
 NEEDS_FIXTURES = {
     'harness.c04_roundtrip': True,
     'harness.c06_decoder': True,
+    'harness.c07_evolution': True,
     'harness.c13_privacy': True,
     'harness.c14_client': True,
 }
